@@ -40,14 +40,14 @@ theorem infer_complete (m : Meta) (opts : List Opt) (hm : m.WellFormed) (hv : Va
   compute_complete_core m hm opts hv
 
 /-- Both together: from the stat produced by a valid option set, `compute` returns a valid option set with the
-    same total (not necessarily the same set: different sets can have the same total). The side condition says
-    that the produced stat is well formed; it only constrains weapons with a negative base attack. -/
-theorem infer_roundtrip (m : Meta) (opts : List Opt) (hm : m.WellFormed) (hv : ValidOptions m opts)
-    (hw : (sumImprove m opts).WellFormed) :
+    same total (not necessarily the same set: different sets can have the same total). The side condition
+    excludes only weapons whose base attack and base magic attack are both negative (no such gear exists). -/
+theorem infer_roundtrip (m : Meta) (opts : List Opt) (hm : m.WellFormed)
+    (hb : m.wclass = .notWeapon ∨ 0 ≤ m.baseAtt ∨ 0 ≤ m.baseMatt) (hv : ValidOptions m opts) :
     ∃ res, compute m (sumImprove m opts) = .ok res ∧ ValidOptions m res
       ∧ sumImprove m res = sumImprove m opts := by
   obtain ⟨res, hres⟩ := infer_complete m opts hm hv
-  exact ⟨res, hres, infer_sound m _ res hm hw hres⟩
+  exact ⟨res, hres, infer_sound m _ res hm (sum_wellFormed m hm hb opts hv.2.2) hres⟩
 
 /-- The all-stat multipliers of any sum of improvements agree, so the only content of the side condition of
     `infer_roundtrip` is non-negativity. -/
